@@ -24,6 +24,10 @@ def run(chk):
         reqs.append("addbase 0 P %s P %s 0 0" % (f, enc_s("s://u@h:8/a/b?q"))); reqs.append("removebase 0 P %s P %s 0 0" % (enc_s("s://u@h:8/a/c/d"), f))
         reqs.append("equals P %s P %s" % (f, sub[(len(reqs) * 7) % len(sub)]))
         for k in (1, 2, 3): reqs.append("normalize 63 0 P %s %d 0" % (f, k))
+    # the guard segment of normalization (a node, then a text of ONE character: 1 byte / 4 bytes), every failure position
+    for t in ("/..//.", "s:/a/..//b", "a/..///b", "s:a/..//"):
+        for ow in (0, 1):
+            for k in range(0, 9): reqs.append("normalize 63 %d P %s %d %d" % (ow, enc_s(t), k, k % 2)); reqs.append("normalize 8 %d P %s %d %d" % (ow, enc_s(t), k, (k + 1) % 2))
     # texts of equal length that differ only in the LAST character of one component (a comparison that looks at bytes
     # instead of characters, or at a prefix only, agrees on the char build and not on the wchar_t build)
     def bump_last(f):
